@@ -297,11 +297,19 @@ func (s *dataScanner) fieldIndexes() map[field.ID]int {
 
 // nextContainer goes next container context for scanner
 func (s *dataScanner) nextContainer() error {
-	s.highKey = s.highKeys[s.highContainerIdx]
-	s.container = s.reader.seriesIDs.GetContainerAtIndex(s.highContainerIdx)
-	level3Block, err := s.reader.highKeyOffsets.GetBlock(s.highContainerIdx, s.reader.seriesBucket)
+	highContainerIdx := s.highContainerIdx
+	// always move forward, a container which cannot be read must not block the scan of the following containers
+	s.highContainerIdx++
+	s.highKey = s.highKeys[highContainerIdx]
+	s.container = s.reader.seriesIDs.GetContainerAtIndex(highContainerIdx)
+	s.seriesEntries = nil
+	level3Block, err := s.reader.highKeyOffsets.GetBlock(highContainerIdx, s.reader.seriesBucket)
 	if err != nil {
 		return err
+	}
+	if len(level3Block) == 0 {
+		// all series entries of this container are empty(series without field data), nothing is written for it
+		return nil
 	}
 	if len(level3Block) <= 4 {
 		return fmt.Errorf("series entries length too short: %d", len(level3Block))
@@ -314,7 +322,6 @@ func (s *dataScanner) nextContainer() error {
 		return err
 	}
 	s.seriesEntries = level3Block[:lowKeyOffsetsAt]
-	s.highContainerIdx++
 	return nil
 }
 
@@ -339,7 +346,7 @@ func (s *dataScanner) scan(highKey, lowSeriesID uint16) []byte {
 		return nil
 	}
 	// find data by low series id
-	if s.container.Contains(lowSeriesID) {
+	if len(s.seriesEntries) > 0 && s.container.Contains(lowSeriesID) {
 		// get the index of low series id in container
 		idx := s.container.Rank(lowSeriesID)
 		// get series data data position
